@@ -2,7 +2,8 @@
 (* C08 / C09 / C11 exhaustive on small inputs.
    mode "irr": every subset of an NI x NX grid in which every inline and crossline keeps a trace (and at least one hole),
                with independent starts and steps; inline numbers never 0 unless Zero = TRUE (known finding D22).
-   mode "win": every window <<a,b,c,d>> with 0 <= a < b <= NI, 0 <= c < d <= NX and every pattern of absent bounds.
+   mode "win": every window <<a,b,c,d>> with 0 <= a < b <= NI, 0 <= c < d <= NX and every pattern of absent bounds, on an
+               inline-sorted and on a crossline-sorted source.
    mode "det": detection of 2-D / regular / irregular for small sources. *)
 EXTENDS SgzIngest, TLC
 CONSTANTS MaxI, MaxX, Zero, ModeSet
@@ -37,7 +38,7 @@ Src == LET q == SortedSeq(sel) IN [t \in 1..Len(q) |-> <<par[1] + q[t][1] * par[
 True == [il |-> [j \in 1..ni |-> par[1] + (j - 1) * par[2]], xl |-> [j \in 1..nx |-> par[3] + (j - 1) * par[4]]]
 Ready == par # <<>>
 PIrregular == (Ready /\ mode = "irr") => IrregularOK(Src, True)
-PWindow == (Ready /\ mode = "win") => WindowOK(ni, nx, par, 4, 2)
+PWindow == (Ready /\ mode = "win") => \A srt \in {"il", "xl"} : WindowOKS(ni, nx, par, 4, 2, srt)
 \* C09: a source without line numbering, or with a single inline or crossline, is taken as 2-D with its traces in file order;
 \*      a full grid with >= 2 lines each way is regular; anything else irregular
 PDetect == (Ready /\ mode = "det") =>
